@@ -1855,6 +1855,170 @@ Proof.
 Qed.
 
 (* ================================================================== *)
+(* The definitions used in the statements, spelled out (for Props/)      *)
+(* ================================================================== *)
+Lemma LI_def rw r : LI rw r <-> RepInv rw (r_log r).
+Proof. reflexivity. Qed.
+
+Lemma NLI_def rw n : NLI rw n <-> RepInv rw (r_log (rn_raft n)).
+Proof. reflexivity. Qed.
+
+Lemma NLogOK_def n : NLogOK n <-> exists rw, RepInv rw (r_log (rn_raft n)).
+Proof. reflexivity. Qed.
+
+Lemma room_def k r : room k r <-> last_index (r_log r) + k < u64_max.
+Proof. reflexivity. Qed.
+
+Lemma nroom_def k n : nroom k n <-> last_index (r_log (rn_raft n)) + k < u64_max.
+Proof. reflexivity. Qed.
+
+Lemma nlog_def n : nlog n = r_log (rn_raft n).
+Proof. reflexivity. Qed.
+
+Lemma nlast_def n : nlast n = last_index (r_log (rn_raft n)).
+Proof. reflexivity. Qed.
+
+Lemma append_wf_def m :
+  append_wf m <->
+  contiguous_from (m_index m + 1) (m_entries m)
+  /\ Forall (fun e => e_term e <> 0) (m_entries m)
+  /\ m_index m + N.of_nat (length (m_entries m)) < u64_max.
+Proof. reflexivity. Qed.
+
+Lemma msg_wf_def li m :
+  msg_wf li m <->
+  (((m_type m =? MsgHup) || (m_type m =? MsgTimeoutNow) || (m_type m =? MsgRequestVoteResponse)
+    || (m_type m =? MsgRequestPreVoteResponse)) = true -> li + 1 < u64_max)
+  /\ (m_type m = MsgPropose -> li + N.of_nat (length (m_entries m)) < u64_max)
+  /\ (m_type m = MsgAppend -> append_wf m)
+  /\ (m_type m = MsgSnapshot -> s_index (m_snapshot m) < u64_max).
+Proof. reflexivity. Qed.
+
+Lemma snap_written_def l :
+  snap_written l <->
+  match u_snapshot (unst l) with
+  | Some s => snap_index (store l) = s_index s /\ snap_term (store l) = s_term s
+              /\ first_of (store l) = s_index s + 1
+              /\ (u_entries (unst l) = [] -> entries (store l) = [])
+  | None => True
+  end.
+Proof. reflexivity. Qed.
+
+Lemma ents_written_def l :
+  ents_written l <->
+  skipn (N.to_nat (u_offset (unst l) - first_of (store l))) (entries (store l)) = u_entries (unst l).
+Proof. reflexivity. Qed.
+
+Lemma commit_pre_def n :
+  commit_pre n <->
+  (rr_snapshot (List.last (rn_records n) (mkRR 0 None None false)) <> None -> snap_written (r_log (rn_raft n)))
+  /\ (rr_last_entry (List.last (rn_records n) (mkRR 0 None None false)) <> None -> ents_written (r_log (rn_raft n))).
+Proof. reflexivity. Qed.
+
+Lemma persist_pre_def n number :
+  persist_pre n number <->
+  (persisted (r_log (rn_raft n)) < snd (fold_records (rn_records n) number 0 0 0) ->
+   snd (fold_records (rn_records n) number 0 0 0) < next_of (store (r_log (rn_raft n)))).
+Proof. reflexivity. Qed.
+
+Lemma advance_pre_def n : advance_pre n <-> commit_pre n /\ persist_pre n (rn_max_number n).
+Proof. reflexivity. Qed.
+
+Lemma op_wf_def n o :
+  op_wf n o <->
+  match o with
+  | OStep m => msg_wf (last_index (r_log (rn_raft n))) m
+  | OTick | OCampaign | OPropose _ _ | OProposeCC _ _ _ _ => nroom 1 n
+  | OAdvance _ => advance_pre n /\ nroom 1 n
+  | OAdvanceAppend _ => advance_pre n
+  | OAdvanceAppendAsync _ => commit_pre n
+  | OOnPersistReady k => persist_pre n k
+  | OAdvanceApply | OAdvanceApplyTo _ => is_leader (rn_raft n) = true -> nroom 1 n
+  | OSetStore m => store_write (r_log (rn_raft n)) m
+  | OApplyCC _ | OPing | OReady | OReportUnreachable _ | OReportSnapshot _ _
+  | ORequestSnapshot | OTransferLeader _ | OReadIndex _ => True
+  end.
+Proof. destruct o; reflexivity. Qed.
+
+Lemma store_write_iff l st' :
+  store_write l st' <->
+  (entries st' = entries (store l) /\ snap_index st' = snap_index (store l)
+   /\ snap_term st' = snap_term (store l) /\ trig_log st' = trig_log (store l))
+  \/ (u_snapshot (unst l) = None /\ append (store l) (u_entries (unst l)) = Ok st')
+  \/ (exists s, u_snapshot (unst l) = Some s /\ apply_snapshot (store l) s = Ok (st', SOk tt))
+  \/ (exists s, u_snapshot (unst l) = Some s /\ snap_written l
+                 /\ append (store l) (u_entries (unst l)) = Ok st')
+  \/ (exists ci, u_snapshot (unst l) = None /\ applied l <= committed l /\ ci <= applied l
+                  /\ ci <= u_offset (unst l) /\ ci < next_of (store l)
+                  /\ compact (store l) ci = Ok st').
+Proof.
+  split.
+  - intros W. destruct W.
+    + left. auto.
+    + right; left. auto.
+    + right; right; left. eauto.
+    + right; right; right; left. eauto.
+    + right; right; right; right. exists ci. auto 10.
+  - intros [(A & B & C0 & D)|[(A & B)|[(s & A & B)|[(s & A & B & C0)|(ci & A & B & C0 & D & E & F)]]]].
+    + apply SW_meta; assumption.
+    + apply SW_entries; assumption.
+    + eapply SW_snapshot; eassumption.
+    + eapply SW_entries_after_snapshot; eassumption.
+    + eapply SW_compact; eassumption.
+Qed.
+
+Lemma set_store_node_def n m :
+  set_store_node n m = n <| rn_raft := (rn_raft n) <| r_log := set_store (r_log (rn_raft n)) m |> |>.
+Proof. reflexivity. Qed.
+
+Lemma write_ready_def st rd :
+  write_ready st rd =
+  if s_index (rd_snapshot rd) =? 0 then st' <- append st (rd_entries rd) ;; Ok (Some st')
+  else
+    r <- apply_snapshot st (rd_snapshot rd) ;;
+    match snd r with
+    | SErr _ => Ok None
+    | SOk _ => st' <- append (fst r) (rd_entries rd) ;; Ok (Some st')
+    end.
+Proof. reflexivity. Qed.
+
+Lemma wrun_iff n n' :
+  wrun n n' <->
+  n' = n \/ exists o n1 ot, op_wf n o /\ exec n o = Ok (n1, ot) /\ wrun n1 n'.
+Proof.
+  split.
+  - intros R. destruct R; [left; reflexivity|right; eauto 10].
+  - intros [->|(o & n1 & ot & A & B & C0)]; [constructor|econstructor; eassumption].
+Qed.
+
+Lemma handout_side_def l since :
+  handout_side l since <-> since < u64_max /\ ll_first (abs l) <= since + 1.
+Proof. reflexivity. Qed.
+
+Lemma op_pre_node_def n o :
+  op_pre_node n o <->
+  op_wf n o /\
+  match o with
+  | OReady => handout_side (r_log (rn_raft n)) (ready_since n)
+  | OAdvance rd | OAdvanceAppend rd =>
+      forall n1 n2, commit_ready n rd = Ok n1 ->
+                    rn_on_persist_ready n1 (rn_max_number n1) = Ok n2 ->
+                    handout_side (r_log (rn_raft n2)) (rn_commit_since_index n2)
+  | _ => True
+  end.
+Proof. reflexivity. Qed.
+
+Lemma nrun_iff n h n' h' :
+  nrun n h n' h' <->
+  (n' = n /\ h' = h)
+  \/ exists o n1 ot, op_pre_node n o /\ exec n o = Ok (n1, ot) /\ nrun n1 (hist_step h ot) n' h'.
+Proof.
+  split.
+  - intros R. destruct R; [left; split; reflexivity|right; eauto 10].
+  - intros [[-> ->]|(o & n1 & ot & A & B & C0)]; [constructor|econstructor; eassumption].
+Qed.
+
+(* ================================================================== *)
 (* Samples: non-vacuity of the trace theorems, and witnesses that the    *)
 (* caller-side preconditions are needed (each violates RepInv)           *)
 (* ================================================================== *)
